@@ -2,7 +2,7 @@
 //
 // Exhaustive enumeration on the real object tree (test change builder, chosen letter ids so that every relative id
 // order can be enumerated): honest DAGs are produced by small programs of create(replica, plain|snapshot) and
-// pull(replica <- replica) over two creator replicas (a new change's parents are the creator's real heads, its
+// pull(replica <- replica) over two (and, for wider forks, three) creator replicas (a new change's parents are the creator's real heads, its
 // snapshot base the creator's real in-memory root); for the final change set every arrival permutation x batch
 // partition x head announcement x reopen point is fed to a fresh tree.
 package c06
@@ -127,7 +127,7 @@ func (e *env) runProgram(prog []step, ids []string) (out []chg, ok bool) {
 		t  objecttree.ObjectTree
 		st objecttree.Storage
 	}
-	var reps [2]rep
+	var reps [3]rep
 	for i := range reps {
 		reps[i].t, reps[i].st = e.newTree()
 	}
@@ -177,24 +177,39 @@ func dagKey(cs []chg) string {
 	return strings.Join(parts, ";")
 }
 
-func programs(maxCreates, maxPulls int) (out [][]step) {
-	var rec func(p []step, creates, pulls int)
-	rec = func(p []step, creates, pulls int) {
+func programs(maxCreates, maxPulls int) (out [][]step) { return programsN(maxCreates, maxPulls, 2) }
+
+// programsN enumerates programs over nRep creator replicas up to renaming of replicas: a replica index may only
+// appear once every lower index has appeared (first-use order), and nobody pulls from a replica that has done nothing.
+func programsN(maxCreates, maxPulls, nRep int) (out [][]step) {
+	var rec func(p []step, creates, pulls, used int)
+	rec = func(p []step, creates, pulls, used int) {
 		if creates > 0 && p[len(p)-1].Op != "pull" {
 			out = append(out, append([]step{}, p...))
 		}
+		next := func(r int) int {
+			if r == used {
+				return used + 1
+			}
+			return used
+		}
 		if creates < maxCreates {
-			for r := 0; r < 2; r++ {
-				rec(append(p, step{Op: "create", R: r}), creates+1, pulls)
-				rec(append(p, step{Op: "snap", R: r}), creates+1, pulls)
+			for r := 0; r <= used && r < nRep; r++ {
+				rec(append(p, step{Op: "create", R: r}), creates+1, pulls, next(r))
+				rec(append(p, step{Op: "snap", R: r}), creates+1, pulls, next(r))
 			}
 		}
 		if pulls < maxPulls && creates > 0 && p[len(p)-1].Op != "pull" {
-			rec(append(p, step{Op: "pull", R: 0, S: 1}), creates, pulls+1)
-			rec(append(p, step{Op: "pull", R: 1, S: 0}), creates, pulls+1)
+			for dst := 0; dst <= used && dst < nRep; dst++ {
+				for src := 0; src < used; src++ {
+					if src != dst {
+						rec(append(p, step{Op: "pull", R: dst, S: src}), creates, pulls+1, next(dst))
+					}
+				}
+			}
 		}
 	}
-	rec(nil, 0, 0)
+	rec(nil, 0, 0, 0)
 	return
 }
 
@@ -556,7 +571,7 @@ func TestCheck(t *testing.T) {
 	vk.Main(t, vk.Spec{
 		Prop:  "C06",
 		Level: "model_checking",
-		Rule: "all honest DAGs produced by programs of create(plain|snapshot) / pull over two creator replicas with <= N changes and every assignment of letter ids (all relative id orders); for each final change set every arrival permutation x batch partition x head announcement (sender heads | batch maxima) x reopen point is fed to a fresh real object tree (each feeding ends with the complete set); " +
+		Rule: "all honest DAGs produced by programs of create(plain|snapshot) / pull over two creator replicas with <= N changes, and over three creator replicas (three concurrent children of one change) with the bounds given in the evidence, and every assignment of letter ids (all relative id orders); for each final change set every arrival permutation x batch partition x head announcement (sender heads | batch maxima) x reopen point is fed to a fresh real object tree (each feeding ends with the complete set); " +
 			"states = distinct DAGs (shape + ids + snapshot placement); transitions = AddRawChanges calls; distinct_nontrivial = distinct (DAG, arrival order, partition) feedings of DAGs with a fork or a snapshot",
 		Assumptions: []string{
 			"test change builder (no signatures) and no-op validator: ordering logic only; feedings run over an in-memory implementation of the storage interface; for every DAG the creation-order feed is repeated on a real any-store tree storage and must store the identical (id, order id) sequence and reopen to the same heads",
@@ -608,6 +623,12 @@ func body(c *vk.Ctx) {
 		// plus everything with two pulls up to 3 changes
 		progs = append(progs, programs(3, 2)...)
 	}
+	// three creator replicas: the only way to give one change three concurrent children (DAGs already produced by
+	// two replicas are skipped by the DAG key)
+	wideN, widePulls := vk.Pick(c, 3, 4), vk.Pick(c, 1, 2)
+	c.Bound("max_changes_three_replicas", wideN)
+	c.Bound("max_pulls_three_replicas", widePulls)
+	progs = append(progs, programsN(wideN, widePulls, 3)...)
 	c.Bound("programs", len(progs))
 	letters := []string{"a", "b", "c", "d"}
 	seen := map[string]bool{}
